@@ -14,7 +14,7 @@ SEEDS = {
  'C17-1': ('C17', 'C17/mut1_rebased.diff', 'C17/demo_mut1.rs', 'fresh_idx <= out became <: parsing $f<n> with n exactly the next fresh index'),
  'C17-2': ('C17', 'C17/mut2_rebased.diff', 'C17/demo_mut2.rs', 'unconditional fresh_idx = out + 4: re-parsing the name of an older fresh slot moves the counter down'),
  'C18-1': ('C18', 'C18/mut1.diff', 'C18/demo_mut1.rs', 'crop_ident splits by character count instead of byte offset: a non-ASCII identifier followed by a delimiter'),
- 'C18-2': ('C18', 'C18/mut2.diff', 'C18/demo_mut2.rs', 'x-position of b[x := t] parsed without substitution: only a Subst nested in the middle position fails to re-parse (round-trip clause)'),
+ 'C18-2': ('C18', 'C18/mut2_rebased.diff', 'C18/demo_mut2.rs', 'x-position of b[x := t] parsed without substitution: only a Subst nested in the middle position fails to re-parse (round-trip clause)'),
  'C19-1': ('C19', 'C19/mut1.diff', 'C19/demo_mut1.rs', 'SlotMap::search scans 16 entries linearly and forgets the offset of the binary-searched tail: maps with >= 17 entries'),
  'C19-2': ('C19', 'C19/mut2.diff', 'C19/demo_mut2.rs', 'try_union searches self instead of the growing result: right-hand map adds >= 2 new keys'),
  'C04-1': ('C04', 'C04/mut1.diff', 'C04/demo_mut1.rs', 'ematch_node reads the stored node children instead of the variant: symmetric child class next to a non-symmetric sibling, pattern in the opposite orientation'),
